@@ -46,7 +46,7 @@ def h1(cx):
         fn = F.impl_fn(im, 'poll')
         g = cx.graph(fn['key'])
         label = cx.label(fn)
-        calls = [x for x in g.nodes if x['kind'] == 'call' and x['name'] == '<fnptr>']
+        calls = [x for x in g.nodes if x['kind'] == 'call' and x['name'] == '<fnptr>' and not x['ctx']]
         ok = len(calls) == 1
         msg = 'task function runs on arguments taken out of the Option slot'
         for x in calls:
